@@ -98,6 +98,43 @@ def make_carriers(shape, timeout):
     return Cond(f"carriers/{site}", [(f"c{i}", int) for i in range(n)], body, mode="E3", timeout=timeout)
 
 
+def make_primed(timeout):
+    """Carriers still agree after the routine has been used - with another text, through another carrier."""
+    import typing as t
+
+    from typelib import unmarshals
+
+    targets = [("Union[int,str]", t.Union[int, str]), ("float|str", float | str), ("list[int]", list[int]), ("tuple[int,int]", tuple[int, int]),
+               ("Optional[str]", t.Optional[str]), ("dict[str,int]", dict[str, int])]
+    texts = ["n/a", "1", "2.5", "[1, 2, 3]", '{"a": 1}', "null"]
+
+    def body(c0: int, c1: int, c2: int, c3: int, c4: int):
+        from vlib import caches
+
+        ch = Chooser((c0, c1, c2, c3, c4))
+        with NoTracing():
+            name, T = ch.choose(targets)
+            prime_T = T if ch.flag() else tuple[int, int]
+            s0, c0_ = ch.choose(texts), ch.choose(("str", "bytes"))
+            s1 = ch.choose(texts)
+            caches.clear_all()
+            attempt(unmarshals.unmarshaller(prime_T), carry(s0, c0_))
+            UT = unmarshals.unmarshaller(T)
+            base = outcome(UT, carry(s1, "str"))
+            reached()
+            for c in CARRIERS[1:]:
+                o = outcome(UT, carry(s1, c))
+                if o != base:
+                    return ("carrier_differs_after_priming:" + c, name, _d(prime_T, s0, c0_, s1, base, o))
+            caches.clear_all()
+            cold = outcome(unmarshals.unmarshaller(T), carry(s1, "str"))
+            if cold != base:
+                return ("text_outcome_depends_on_priming", name, _d(prime_T, s0, c0_, s1, base, cold))
+        return None
+
+    return Cond("primed/carriers", [(f"c{i}", int) for i in range(5)], body, mode="E3", timeout=timeout)
+
+
 def _composite(s):
     return any(k in s.__dict__ for k in ("elem", "elems", "fields", "key"))
 
@@ -281,7 +318,7 @@ def conditions(tier, seed):
         out.append(make_load(3, seed % 3, 3, to))
     else:
         out += [make_load(3, k, 3, to) for k in range(3)]
-    out += [make_load_texts(to), make_load_nontext(to), make_decode(to), make_decode_str(to)]
+    out += [make_load_texts(to), make_load_nontext(to), make_decode(to), make_decode_str(to), make_primed(2 * to)]
     if not any(c.name == "carriers/Slug(str)" for c in out):  # a user subclass of str (in the catalogue core; kept explicit)
         from vlib.fixtures import models as M
         from vlib.shapes import Picked
